@@ -72,8 +72,8 @@ PROPERTIES = {
         "expected_probes": ["creating_call_failed_cleanly"],
         "exhaustive": {"quick": True, "thorough": True},
         "tiers": {
-            "quick": [B("enum-small-a", "plain", "small-a", 100000, 60, mode="enum"), B("seeded-small-a", "plain", "small-a", 4000, 30), B("enum-shipped", "plain", "shipped", 100000, 90, workers=8, mode="enum", gate=8),
-                      B("seeded-shipped", "plain", "shipped", 24, 30, workers=8, gate=4)],
+            "quick": [B("enum-small-a", "plain", "small-a", 100000, 40, mode="enum"), B("seeded-small-a", "plain", "small-a", 4000, 30), B("enum-shipped", "plain", "shipped", 100000, 60, workers=8, mode="enum", gate=2),
+                      B("seeded-shipped", "plain", "shipped", 24, 25, workers=8, gate=2)],
             "thorough": [B("enum-small-a", "plain", "small-a", 100000, 300, mode="enum"), B("enum-small-b", "plain", "small-b", 100000, 300, mode="enum"), B("seeded-small-a", "plain", "small-a", 100000, 300),
                          B("enum-shipped", "plain", "shipped", 100000, 600, workers=8, mode="enum", gate=8), B("seeded-shipped", "plain", "shipped", 600, 300, workers=8, gate=8)],
         },
